@@ -1,7 +1,6 @@
 /-
   Property C03 — surplus transfers and STV rounds conserve votes.
 -/
-import VK.Props.Kernels
 import VK.Model.Transfers
 import VK.Lemmas.STVWeight
 import VK.Lemmas.STVRun
